@@ -468,6 +468,20 @@ def a7(prog, ctx):
                          sorted(str(x) for x in idx_vals), sorted(str(x) for x in finals)), key="grouplist-end")
     else:
         ctx.fail("A7", "a section is added to the list once, at the end", s.where, "append idiom not found", key="grouplist-dup")
+    # the lookup in the section list is by whole-name equality
+    if prog.has_fn("getFromGroupList"):
+        gl = prog.fn("getFromGroupList")
+        ctx.touch(gl)
+        cmps = [c for c in gl.calls(("strcmp", "strncmp", "strcasecmp", "strncasecmp", "memcmp")) if any("->groups[" in render(a2) for a2 in c.call_args())]
+        if not cmps:
+            ctx.inconclusive("A7", "a section name is looked up by whole-name equality", gl.where, "no comparison with the list elements found")
+        for c in cmps:
+            if c.j["callee"] == "strcmp":
+                ctx.ok("A7", "a section name is looked up by whole-name equality", c.where, render(c))
+            else:
+                ctx.fail("A7", "a section name is looked up by whole-name equality", c.where,
+                         "%s: the comparison covers only a prefix / ignores case - a section whose name begins like (or only differs in case from) an "
+                         "existing one is filed under that one" % render(c), key="grouplist-compare")
     # econf_getKeys
     k = prog.fn("econf_getKeys")
     ctx.touch(k)
